@@ -61,7 +61,11 @@ static void gen_model(Draw &d, Case &c) {
   if (s.mag == 0) enforce_scale_domain(X, s.scaling);
   c.p.insert(c.p.end(), {s.kind, s.n, s.p, s.ny, s.ncomp, s.scaling, s.mag});
   put(c, X);
-  auto y = d.ivec((size_t)s.n * s.ny, -500, 500); for (int i = 0; i < s.n; i++) for (int j = 0; j < s.ny; j++) c.v.push_back(((double)y[(size_t)i * s.ny + j] / 50.0 + X(i, 0) / std::pow(10.0, s.mag)) * std::pow(10.0, s.mag));
+  // the responses get a magnitude of their own in half of the cases (x in 1e8, y in 1e-9: regression coefficients of 1e-17 - numbers
+  // a fixed-point text representation cannot hold)
+  int ymag = d.coin(50) ? s.mag : (int)d.pick<int>({-9, -6, -3, 0, 3, 6, 9});
+  auto y = d.ivec((size_t)s.n * s.ny, -500, 500); for (int i = 0; i < s.n; i++) for (int j = 0; j < s.ny; j++) c.v.push_back(((double)y[(size_t)i * s.ny + j] / 50.0 + X(i, 0) / std::pow(10.0, s.mag)) * std::pow(10.0, ymag));
+  if (ymag != s.mag) c.tags.push_back("x-and-y-on-different-magnitudes");
   c.tags.push_back(s.kind == 0 ? "model=PCA" : s.kind == 1 ? "model=PLS" : "model=CPCA");
 }
 static ModelSpec read_spec(Reader &rd) {
@@ -89,10 +93,13 @@ static Built build(const ModelSpec &s) {
   }
   return b;
 }
+static double colmax(const matrix *a, size_t j) { double m = 0; for (size_t i = 0; i < a->row; i++) m = std::max(m, std::fabs(a->data[i][j])); return m; }
+// "a model read back predicts the same": relative to the size of the predictions of that column (no absolute floor: a model of
+// small magnitude predicts small numbers)
 static void check_predictions(const Built &b, const char *path) {
   auto cmp = [&](const matrix *a, const matrix *r, const char *who) {
     VF_CHECK(a->row == r->row && a->col == r->col, "%s from the model read back: shape %s vs %s", who, dims(r).c_str(), dims(a).c_str());
-    for (size_t i = 0; i < a->row; i++) for (size_t j = 0; j < a->col; j++) VF_CHECK(std::fabs(a->data[i][j] - r->data[i][j]) <= 1e-11 * (std::fabs(a->data[i][j]) + 1e-300) + 1e-13 * 1, "%s differs between the saved and the read model at (%zu,%zu): %.15g vs %.15g", who, i, j, a->data[i][j], r->data[i][j]);
+    for (size_t i = 0; i < a->row; i++) for (size_t j = 0; j < a->col; j++) VF_CHECK(std::fabs(a->data[i][j] - r->data[i][j]) <= 1e-11 * (std::fabs(a->data[i][j]) + colmax(a, j)) + 1e-300, "%s differs between the saved and the read model at (%zu,%zu): %.15g vs %.15g", who, i, j, a->data[i][j], r->data[i][j]);
   };
   if (b.kind == 0) { PCAMODEL *r; NewPCAModel(&r); ReadPCA((char *)path, r); matrix *p1, *p2; initMatrix(&p1); initMatrix(&p2); PCAScorePredictor(b.mx, b.pca, 5, p1); PCAScorePredictor(b.mx, r, 5, p2); cmp(p1, p2, "PCAScorePredictor"); DelMatrix(&p1); DelMatrix(&p2); DelPCAModel(&r); }
   else if (b.kind == 1) { PLSMODEL *r; NewPLSModel(&r); ReadPLS((char *)path, r); matrix *p1, *p2; initMatrix(&p1); initMatrix(&p2); PLSYPredictorAllLV(b.mx, b.pls, NULL, p1); PLSYPredictorAllLV(b.mx, r, NULL, p2); cmp(p1, p2, "PLSYPredictorAllLV"); DelMatrix(&p1); DelMatrix(&p2); DelPLSModel(&r); }
